@@ -151,8 +151,11 @@ def apply_contract(interp, c, func, args, kwargs):
             if clause[1] == 'effect':
                 _call_pred(interp, clause[0], env2)
             continue
+        n_dec = len(st.decisions)
         v = interp.truth(_call_pred(interp, clause, env2))
-        if v is False and not st.scopes and st.check() != z3.unsat:
+        if v is False and not st.scopes and len(st.decisions) == n_dec and st.check() != z3.unsat:
+            # (a clause that is false after a case split made while evaluating it just prunes that case, e.g. an
+            # enum-valued result; a clause that is false without any case split contradicts the path)
             # a clause that is plainly false on a feasible path: assuming it would silently drop the path
             # (typically a clause about the callee's own `trace`: mark it (clause, 'internal'))
             raise Unsupported('ensures[%s] of %s evaluates to False at a call site in %s: the contract cannot '
